@@ -383,7 +383,9 @@ pub fn run(tier: Tier) -> i32 {
                     trs_here.push(padded);
                 }
                 for tr in &trs_here {
-                    for rd in [Rd::default(), Rd { period: 1, ..Rd::default() }, Rd { bufreader: 3, ..Rd::default() }] {
+                    // (the fourth reader never shows the trailer in the same piece as the end of the file: a chained source,
+                    // or a buffer whose refill boundary coincides with the end of the stream)
+                    for rd in [Rd::default(), Rd { period: 1, ..Rd::default() }, Rd { bufreader: 3, ..Rd::default() }, Rd { cuts: vec![file.len()], ..Rd::default() }, Rd { cuts: vec![file.len().saturating_sub(12), file.len()], ..Rd::default() }] {
                         let mut input = file.clone();
                         input.extend_from_slice(tr);
                         let case = Case::Dec { fmt: *fmt, opts: Opts::default(), input: Hex(input), rd, sk: Sk::default() };
@@ -417,7 +419,7 @@ pub fn run(tier: Tier) -> i32 {
                     }
                 }
             });
-            ctx.scope_done(name, n * trs.len() as u64 * 3, t0, "marker-terminated .lzma and .xz with 6 trailers (.xz: + 3 trailers that are complete streams) x 3 readers");
+            ctx.scope_done(name, n * trs.len() as u64 * 5, t0, "marker-terminated .lzma and .xz with 6 trailers (.xz: + 3 trailers that are complete streams) x 5 readers");
         }
     }
     ctx.finish()
